@@ -147,7 +147,7 @@ def prepare_evo_aspirate_dispense_parameters(
         raise ValueError("Grid (first number in labware_position tuple) has to be an int from 1 - 67.")
     if not isinstance(site, int) or not 1 <= site <= 128:
         raise ValueError("Site (second number in labware_position tuple) has to be an int from 1 - 128.")
-    labware_position = (grid, site - 1)
+    labware_position = (int(grid), int(site) - 1)
 
     if volume is None:
         raise ValueError("Missing required parameter: volume")
@@ -299,7 +299,7 @@ def evo_aspirate(
     require_single_column_selection(selected)
     # create code string containing information about target well(s)
     code_string = evo_get_selection(n_rows, n_columns, selected)
-    return f'B;Aspirate({tip_selection},"{liquid_class}",{tip_volumes}0,0,0,0,{labware_position[0]},{labware_position[1]},1,"{code_string}",0,{arm});'
+    return f'B;Aspirate({tip_selection},"{liquid_class}",{tip_volumes}0,0,0,0,{labware_position[0]},{labware_position[1]},1,"{code_string}",0,{int(arm)});'
 
 
 def evo_dispense(
@@ -376,7 +376,7 @@ def evo_dispense(
     require_single_column_selection(selected)
     # create code string containing information about target well(s)
     code_string = evo_get_selection(n_rows, n_columns, selected)
-    return f'B;Dispense({tip_selection},"{liquid_class}",{tip_volumes}0,0,0,0,{labware_position[0]},{labware_position[1]},1,"{code_string}",0,{arm});'
+    return f'B;Dispense({tip_selection},"{liquid_class}",{tip_volumes}0,0,0,0,{labware_position[0]},{labware_position[1]},1,"{code_string}",0,{int(arm)});'
 
 
 def prepare_evo_wash_parameters(
@@ -543,20 +543,21 @@ def prepare_evo_wash_parameters(
     if not low_volume == 0 and not low_volume == 1:
         raise ValueError("Parameter low_volume has to be 0 (no fast-wash) or 1 (use fast-wash).")
 
+    # bool passes the integer checks above (True == 1); the command needs plain integers
     return (
         tecan_tips,
-        waste_location,
-        cleaner_location,
-        arm,
+        (int(waste_location[0]), int(waste_location[1])),
+        (int(cleaner_location[0]), int(cleaner_location[1])),
+        int(arm),
         waste_vol,
-        waste_delay,
+        int(waste_delay),
         cleaner_vol,
-        cleaner_delay,
-        airgap,
-        airgap_speed,
-        retract_speed,
-        fastwash,
-        low_volume,
+        int(cleaner_delay),
+        int(airgap),
+        int(airgap_speed),
+        int(retract_speed),
+        int(fastwash),
+        int(low_volume),
     )
 
 
